@@ -240,6 +240,8 @@ type pRoute struct {
 	Orig  string   // the name that held the value first
 	Copy  string   // the name the copy was bound to ("" when it lives inside a callee)
 	Extra []string // further names that must not change either
+	// how the original / the copy is printed when it is not a plain array name (an SPL object)
+	OrigShow, CopyShow string
 	// the copy lives behind a call boundary: the mutation is rendered on Callee inside Decl
 	// ({MUT}) and Call is the statement
 	Callee string
@@ -247,6 +249,7 @@ type pRoute struct {
 	OrigRO   bool     // the original cannot be written (a constant, a literal): side copy only
 	LitOnly  bool     // needs a constant expression
 	ListOnly bool     // spread: positional keys only
+	FlatOnly bool     // the route builds a flat list itself: shape `list` only
 	Fresh    bool     // `global` resolves per interpreter
 	NoEffect bool     // the route may change keys / drop elements (a built-in): no effect check
 	NoKV     bool     // an array method: not defined on a keyed literal (ObjectValue)
@@ -346,6 +349,10 @@ var pRoutes = []pRoute{
 	{Name: "filterM", NoKV: true, Setup: "$a = {V}; $b = $a->filter(function($x) { return true; });", Orig: "$a", Copy: "$b", NoEffect: true},
 	{Name: "iteratorToArray", Setup: "$a = {V}; $b = iterator_to_array(new ArrayIterator($a));", Orig: "$a", Copy: "$b", NoEffect: true, Funcs: []string{"iterator_to_array"}},
 	{Name: "arrayObjectCopy", Setup: "$a = {V}; $ao = new ArrayObject($a); $b = $ao->getArrayCopy();", Orig: "$a", Copy: "$b", NoEffect: true},
+	// --- objects that keep an array inside: the array handed in / out must stay independent of the object
+	{Name: "arrayObject", NoEffect: true, Setup: "$a = {V}; $ao = new ArrayObject($a); $b = $ao->getArrayCopy();", Orig: "$a", Copy: "$ao", CopyShow: "$ao->getArrayCopy()", Extra: []string{"$b"}},
+	{Name: "arrayIterator", NoEffect: true, Setup: "$a = {V}; $ao = new ArrayIterator($a); $b = $ao->getArrayCopy();", Orig: "$a", Copy: "$ao", CopyShow: "$ao->getArrayCopy()", Extra: []string{"$b"}},
+	{Name: "splFixedArray", NoEffect: true, FlatOnly: true, Setup: "$f = new SplFixedArray(3); $f[0] = {0}; $f[1] = {1}; $f[2] = {2}; $b = $f->toArray();", Orig: "$f", OrigShow: "$f->toArray()", Copy: "$b"},
 	// --- the payload of an element is held by a plain variable as well
 	{Name: "scalarVar", ScalarVar: true, Setup: "$s0 = {0}; $s1 = {1}; $s2 = {2}; {PRE} $a = {V};", Orig: "$s0", Copy: "$a"},
 	{Name: "scalarVarRead", ScalarVar: true, Setup: "$s0 = 0; $s1 = {1}; $s2 = {2}; $q = {0}; {PRE} $a = {V}; $s0 = $a{T};", Orig: "$s0", Copy: "$a"},
@@ -453,6 +460,9 @@ func plApplicable(k pKind, s pShape, rt pRoute, m pMut, side string, have map[st
 	if rt.NoKV && strings.HasPrefix(s.Name, "kv") {
 		return false
 	}
+	if rt.FlatOnly && s.Name != "list" {
+		return false
+	}
 	if rt.ListOnly && s.Name != "list" && s.Name != "nest" && s.Name != "nest3" {
 		return false
 	}
@@ -496,13 +506,21 @@ func plCase(k pKind, s pShape, rt pRoute, m pMut, side string, have map[string]b
 		stmt = sub(rt.Call)
 	case side == "orig":
 		written = sub(rt.Orig)
-		others = append(others, rt.Copy)
+		if rt.CopyShow != "" {
+			others = append(others, rt.CopyShow)
+		} else {
+			others = append(others, rt.Copy)
+		}
 		if rt.ScalarVar {
 			refShape = pShape{Name: "scalar"}
 		}
 	default:
 		written = sub(rt.Copy)
-		others = append(others, rt.Orig)
+		if rt.OrigShow != "" {
+			others = append(others, rt.OrigShow)
+		} else {
+			others = append(others, rt.Orig)
+		}
 	}
 	for _, e := range rt.Extra {
 		others = append(others, e)
@@ -622,9 +640,18 @@ func (r *runner) runPL(cs *Case) {
 func (r *runner) plEnumerate(full bool, rnd *vh.Rand, sample int) int {
 	have := r.plProbe()
 	n := 0
-	run := func(k pKind, s pShape, rt pRoute, m pMut, side string) {
+	// the effect check (the written name holds what the same statement gives on a plain variable) is the
+	// harness validating its own routes; it is applied as a verdict on the core enumeration only — the part
+	// that is the same in every run and on which it was established. Beyond it (seeded sample, the thorough
+	// product) the same write may legitimately differ between a variable and a property / static / element
+	// for reasons that have nothing to do with copies (a by-reference built-in on a keyed static property
+	// does nothing, …): there it is counted (`pl:effect-differs`), not judged.
+	run := func(k pKind, s pShape, rt pRoute, m pMut, side string, core bool) {
 		if cs := plCase(k, s, rt, m, side, have); cs != nil {
 			n++
+			if !core {
+				cs.NoEffect = true
+			}
 			r.runPL(cs)
 		}
 	}
@@ -635,22 +662,23 @@ func (r *runner) plEnumerate(full bool, rnd *vh.Rand, sample int) int {
 			for _, rt := range pRoutes {
 				for _, m := range pMuts {
 					for _, side := range sides {
+						i := k.Name == "str" && s.Name == "list"
+						ii := rt.Name == "assign" && side == "copy"
+						iii := m.Name == "cat" && (!rt.Fresh || (k.Name == "str" && s.Name == "list"))
+						core := i || ii || iii
 						if !full {
-							i := k.Name == "str" && s.Name == "list"
-							ii := rt.Name == "assign" && side == "copy"
-							iii := m.Name == "cat" && (!rt.Fresh || (k.Name == "str" && s.Name == "list"))
-							if !(i || ii || iii) {
+							if !core {
 								continue
 							}
-						} else {
-							if rt.Fresh && !(s.Name == "list" && (k.Name == "str" || m.Name == "cat")) {
+						} else if !core {
+							if rt.Fresh {
 								continue // a fresh interpreter per case is slow
 							}
 							if !(k.Name == "str" || k.Name == "mixed" || s.Name == "list" || fullRoutes[rt.Name]) {
 								continue
 							}
 						}
-						run(k, s, rt, m, side)
+						run(k, s, rt, m, side, core)
 					}
 				}
 			}
@@ -664,7 +692,7 @@ func (r *runner) plEnumerate(full bool, rnd *vh.Rand, sample int) int {
 		if rt.Fresh {
 			continue
 		}
-		run(vh.Pick(rnd, pKinds), vh.Pick(rnd, pShapes), rt, vh.Pick(rnd, pMuts), vh.Pick(rnd, sides))
+		run(vh.Pick(rnd, pKinds), vh.Pick(rnd, pShapes), rt, vh.Pick(rnd, pMuts), vh.Pick(rnd, sides), false)
 	}
 	return n
 }
